@@ -4,9 +4,11 @@
      {op: "ctab", m, version, dflt, oc, lines, back}
          MOLFile.set_structure(m, default_bond_type=dflt, version) -> lines (behind the 3 header lines)
          -> MOLFile.read -> get_structure -> back = {ok, atoms: [{elem, xyz, chg}], bonds: [[i, j, t]]}
-     {op: "rd", m, nmodels, dative, ring, oc, back}
-         to_mol(stack of nmodels models, explicit_hydrogen=True, use_dative_bonds=dative)
-         -> from_mol(add_hydrogen=False) -> back = {nmodels, atoms: [{elem, chg}], bonds, coords_same}
+     {op: "rd", m, nmodels, opt: {eh, ah, kek, dative, conf}, ring, oc, back}
+         to_mol(stack of nmodels models, explicit_hydrogen=eh, kekulize=kek, use_dative_bonds=dative)
+         -> from_mol(add_hydrogen=ah, conformer_id=conf) -> back = {nmodels, stack, atoms: [{elem, chg}], bonds, coords_same}
+         (all atoms and bonds of the result; coords_same: the first Len(m.atoms) atoms of every model have the
+         coordinates they were given)
      {op: "sd", recs, oc, lines, back}
          SDFile of the records (header, ctab lines, metadata) -> serialize -> lines
          -> SDFile.deserialize -> back = [{header, ctab, meta: {ok, items}, mol}]
@@ -40,19 +42,33 @@ JudgeCtab(ev) == Bind(ExpectCtab(ev.m, ev.version, ev.dflt), LAMBDA e :
   IN /\ (flags = <<TRUE, TRUE, TRUE>> \/ PrintT(<<"MISMATCH", tid, l + 1, flags, e.kb, e.oc>>))
      /\ (exact3000 \/ PrintT(<<"DIAG", tid, l + 1, "v3000-lines-differ">>)))
 
+(* the molecule is the prefix of the result; behind it only the hydrogen atoms RDKit makes explicit:
+   element H, no charge, exactly one bond, a SINGLE bond to an atom of the molecule; their number per
+   atom is the spec's hs (0 wherever the option table demands the identity, Unspecified = RDKit decides) *)
 JudgeRd(ev) ==
-  LET x == ExpectRd(ev.m, ev.nmodels, ev.dative)
-      g == ev.back
-      okOc == ev.oc = "ok"
-      okAtoms == ev.oc = "ok" => (g.nmodels = x.nmodels /\ g.coords_same /\ Len(g.atoms) = Len(x.atoms)
-                                  /\ \A i \in DOMAIN x.atoms : g.atoms[i].elem = x.atoms[i].elem /\ g.atoms[i].chg = x.atoms[i].chg)
-      okBonds == ev.oc = "ok" =>
-                   /\ Len(g.bonds) = Cardinality(x.bonds)
-                   /\ \A b \in x.bonds : \E c \in ToSet(g.bonds) : c[1] = b[1] /\ c[2] = b[2] /\ c[3] \in b[3]
-      okRing == (ev.oc = "ok" /\ ev.ring) => ValidKekule(NAtoms(ev.m), ToSet(g.bonds))
-      kb == x.kb
-      flags == <<okOc, okAtoms, okBonds, okRing>>
-  IN flags = <<TRUE, TRUE, TRUE, TRUE>> \/ PrintT(<<"MISMATCH", tid, l + 1, flags, kb, "ok", x.bonds>>)
+  Bind(ExpectRdOpt(ev.m, ev.nmodels, ev.opt), LAMBDA x :
+  LET g == ev.back
+      n == NAtoms(ev.m)
+      gb == ToSet(g.bonds)
+      inner == {c \in gb : c[1] < n /\ c[2] < n}
+      okOc == ev.oc = x.oc
+      both == ev.oc = "ok" /\ x.oc = "ok"
+      okAtoms == both => (/\ g.nmodels = x.nmodels /\ g.stack = x.stack /\ g.coords_same /\ Len(g.atoms) >= Len(x.atoms)
+                          /\ \A i \in DOMAIN x.atoms : g.atoms[i].elem = x.atoms[i].elem /\ g.atoms[i].chg = x.atoms[i].chg)
+      okHs == (both /\ okAtoms) =>
+                /\ \A e \in (n + 1)..Len(g.atoms) :
+                     /\ g.atoms[e].elem = TH /\ g.atoms[e].chg = 0
+                     /\ LET at == {c \in gb : c[1] = e - 1 \/ c[2] = e - 1} IN
+                        Cardinality(at) = 1 /\ \A c \in at : c[3] = 1 /\ c[1] < n
+                /\ \A i \in 1..n : x.hs[i] # Unspecified =>
+                     Cardinality({c \in gb : c[1] = i - 1 /\ c[2] >= n}) = x.hs[i]
+      okBonds == both =>
+                   /\ Len(g.bonds) = Cardinality(gb)
+                   /\ Cardinality(inner) = Cardinality(x.bonds)
+                   /\ \A b \in x.bonds : \E c \in inner : c[1] = b[1] /\ c[2] = b[2] /\ c[3] \in b[3]
+      okRing == (both /\ ev.ring /\ ~ev.opt.kek) => ValidKekuleOn(AromaticAtoms(ev.m), inner)
+      flags == <<okOc, okAtoms, okHs, okBonds, okRing>>
+  IN flags = <<TRUE, TRUE, TRUE, TRUE, TRUE>> \/ PrintT(<<"MISMATCH", tid, l + 1, flags, x.kb, x.oc, x.bonds, x.hs>>))
 
 JudgeSd(ev) ==
   LET recs == [k \in DOMAIN ev.recs |-> [header |-> ev.recs[k].header, ctab |-> ev.recs[k].ctab, meta |-> ev.recs[k].meta]] IN
